@@ -10,7 +10,7 @@ use sml_rs::util::{ArrayBuf, Buffer, OutOfMemory};
 pub struct C18Prop;
 pub static C18: C18Prop = C18Prop;
 
-pub const CAPS: [usize; 12] = [0, 1, 2, 3, 4, 5, 7, 8, 16, 64, 256, 1024];
+pub const CAPS: [usize; 14] = [0, 1, 2, 3, 4, 5, 7, 8, 16, 64, 256, 1024, 300, 70_000];
 
 /// the model: Vec<u8> + limit
 struct Model {
@@ -239,20 +239,26 @@ fn gen_ops(rng: &mut Rng, n: usize, count: usize, model_len: &mut usize) -> Vec<
             0 => BufOp::Push(rng.byte()),
             1 => {
                 // lengths around the free space
-                let len = match rng.below(6) {
+                let len = match rng.below(7) {
                     0 => 0,
                     1 => free.saturating_sub(1),
                     2 => free,
                     3 => free + 1,
+                    // around the 8- and 16-bit limits (only large capacities can take them)
+                    4 if n >= 300 => *rng.pick(&[254usize, 255, 256, 257]),
+                    4 if n >= 70_000 => *rng.pick(&[65_534usize, 65_535, 65_536, 65_537]),
                     _ => rng.below(free.min(12) + 2),
                 }
-                .min(1100);
+                .min(70_100);
                 BufOp::Extend(Hx(rng.bytes(len)))
             }
-            2 => BufOp::Truncate(match rng.below(5) {
+            2 => BufOp::Truncate(match rng.below(7) {
                 0 => usize::MAX,
                 1 => *model_len,
                 2 => *model_len + 1,
+                // far beyond the length, but with small low-order bits: must still be a no-op
+                3 => ((rng.range(1, 3)) << *rng.pick(&[8u32, 16, 32, 48])) | rng.below(*model_len + 1),
+                4 => (1usize << *rng.pick(&[8u32, 16, 32, 63])) + rng.below(3),
                 _ => rng.below(*model_len + 1),
             }),
             3 => BufOp::Clear,
@@ -293,7 +299,7 @@ impl Prop for C18Prop {
         }
     }
     fn rule(&self) -> &'static str {
-        "operation histories of 1-40 steps over {push, extend_from_slice (lengths free-1, free, free+1, 0, random), truncate (k < len, = len, > len, usize::MAX), clear, from_iter (<= N items)} on two ArrayBuf<N> (N in 0,1,2,3,4,5,7,8,16,64,256,1024) checked step by step against a capacity-bounded Vec model, with ==, {:?}, {:x?}, {:#?} compared between the two buffers whenever their contents are equal (different histories leave different stale bytes behind the length); Vec<u8> as Buffer runs the same histories with the k-th allocation failing. Non-trivial = at least one operation hit the capacity limit or an allocation failure; distinct = scenario fingerprint"
+        "operation histories of 1-40 steps over {push, extend_from_slice (lengths free-1, free, free+1, 0, random), truncate (k < len, = len, > len, usize::MAX, multiples of 2^8 / 2^16 / 2^32 plus a small remainder), clear, from_iter (<= N items)} on two ArrayBuf<N> (N in 0,1,2,3,4,5,7,8,16,64,256,300,1024 and, rarely, 70000 with slices around 2^16) checked step by step against a capacity-bounded Vec model, with ==, {:?}, {:x?}, {:#?} compared between the two buffers whenever their contents are equal (different histories leave different stale bytes behind the length); Vec<u8> as Buffer runs the same histories with the k-th allocation failing. Non-trivial = at least one operation hit the capacity limit or an allocation failure; distinct = scenario fingerprint"
     }
     fn assumptions(&self) -> Vec<&'static str> {
         vec!["from_iter is driven with at most N items (overflow panics by documented design, test_from_panic)"]
@@ -319,8 +325,8 @@ impl Prop for C18Prop {
                 alloc_fail: rng.range(1, 6) as u64,
             });
         }
-        let n = *rng.pick(&CAPS);
-        let count = rng.range(1, 40);
+        let n = if rng.chance(1, 60) { 70_000 } else { *rng.pick(&CAPS[..13]) };
+        let count = if n == 70_000 { rng.range(1, 8) } else { rng.range(1, 40) };
         let mut ml = 0;
         let ops = gen_ops(rng, n, count, &mut ml);
         // second buffer: a different history that ends (often) in the same contents:
@@ -375,6 +381,8 @@ impl Prop for C18Prop {
                 64 => run_arr::<64>(s, st),
                 256 => run_arr::<256>(s, st),
                 1024 => run_arr::<1024>(s, st),
+                300 => run_arr::<300>(s, st),
+                70_000 => run_arr::<70_000>(s, st),
                 _ => return Outcome::default(),
             }
         };
